@@ -10,12 +10,16 @@ import Driver.SM4Modes
 import Driver.Padding
 import Driver.Record
 import Driver.X509
+import Driver.SM2Model
 open Gmsm
 
 def dispatch (toks : List String) : String :=
   match Driver.specDispatch toks with
   | some r => r
   | none =>
+    match Driver.sm2ModelDispatch toks with
+    | some r => r
+    | none =>
     match toks with
     | "sm4hist" :: rest => Driver.sm4hist rest
     | "sm3hist" :: rest => Driver.sm3hist rest
